@@ -231,7 +231,7 @@ pub fn install_panic_counter() {
         };
         LAST_PANIC.set(format!("{loc}: {}", msg.chars().take(200).collect::<String>()));
         if std::env::var("VERIF_SHOW_PANICS").is_ok() {
-            eprintln!("[panic] {loc}: {msg}");
+            eprintln!("[panic] {loc}: {msg}\n{}", std::backtrace::Backtrace::force_capture());
         }
     }));
 }
